@@ -31,8 +31,8 @@ EXPLANATION += (" Engine M (bounded symbolic execution of the MIR with z3): comp
                 "gap is never compatible (never compared, let alone attached) and (b) when the table admits the pair the "
                 "result is exactly that of the empty table; dist_in_2r is the centre distance over sqrt((r1+r2)^2+EPS), "
                 "bit-equal to an independently written term over free floats.")
-ASSUMPTIONS += ["M: constraint tables with <= 2 entries in the representation add_constraints produces (strictly increasing gaps; built by engine K's part), limits > 0 free f32",
-                "M: predicted-box histories of 1..3 boxes per track; inside compatible() dist_in_2r is replaced by one arbitrary f32 in [0,1e4] per PAIR of stored predicted boxes (its formula is a separate obligation)",
+ASSUMPTIONS += ["M: constraint tables with <= 2 entries in the representation add_constraints produces (strictly increasing gaps; built by engine K's part), limits free f32 in [0.001, 1000]",
+                "M: predicted-box histories of 1..3 boxes per track; inside compatible() dist_in_2r is replaced by one arbitrary f32 (0 or in [0.0005,1e4]) per PAIR of stored predicted boxes (its formula is a separate obligation)",
                 "M: epochs and max idle < 2^62"]
 
 
@@ -49,7 +49,7 @@ def _mk_compat_constrained(kind, nboxes_a, nboxes_b, ncons):
         for i in range(ncons):
             g = vm.fresh(64, 'gap%d' % i)
             lim = vm.fresh('f32', 'limit%d' % i)
-            vm.assume(z3.And(z3.Not(z3.fpIsNaN(lim)), z3.fpGT(lim, f32(0.0))))
+            vm.assume(fp_in(lim, 0.001, 1000.0))   # same range as the table harnesses (engine K)
             if cons:
                 vm.assume(z3.UGT(g.e, cons[-1][0].e))   # representation invariant of the table: sorted, no duplicate gaps
             cons.append((g, lim))
@@ -72,7 +72,7 @@ def _mk_compat_constrained(kind, nboxes_a, nboxes_b, ncons):
             # one arbitrary non-negative distance per pair of stored predicted boxes (functional in the pair)
             if (i, j) not in dsym:
                 d = vm.fresh('f32', 'dist_a%d_b%d' % (i, j))
-                vm.assume(z3.And(z3.Not(z3.fpIsNaN(d)), z3.fpGEQ(d, f32(0.0)), z3.fpLEQ(d, f32(1.0e4))))
+                vm.assume(z3.Or(d == f32(0.0), fp_in(d, 0.0005, 1.0e4)))   # 0 or a distance the f32 formula resolves
                 dsym[(i, j)] = d
             return dsym[(i, j)]
 
